@@ -18,7 +18,7 @@ import (
 	"golang.org/x/tools/go/ssa"
 )
 
-func checkReadyGroupNoRecursiveRLock(c *Ctx, rule string) {
+func checkReadyGroupNoRecursiveRLock(c *Ctx, rule, owner, what string) {
 	p := c.P
 	var pkg *ssa.Package
 	for _, sp := range p.SSA.AllPackages() {
@@ -194,34 +194,66 @@ func checkReadyGroupNoRecursiveRLock(c *Ctx, rule string) {
 		// same function, before the Add, and not yet started.
 		c.Ok(rule, "ready-group:recursive-read-lock-in-dependency", "-", "hazard noted — "+hazard+": the engine must never add to a group that may be validating")
 		nAdd := 0
+		isGroupField := func(v ssa.Value) bool { return p.Sym(v).Strip().IsField(owner, "rg") }
+		type addSite struct {
+			fn *ssa.Function
+			in ssa.CallInstruction
+		}
+		var sites []addSite
 		for _, f := range p.Funcs {
 			if !inModule(p, f) {
 				continue
 			}
 			for _, ci := range Calls(f) {
-				if calleeName(ci.Common()) != "syncsaga.ReadyGroup.Add" || len(ci.Common().Args) == 0 || !p.Sym(ci.Common().Args[0]).Strip().IsField("tableEngine", "rg") {
+				if calleeName(ci.Common()) != "syncsaga.ReadyGroup.Add" || len(ci.Common().Args) == 0 || !isGroupField(ci.Common().Args[0]) {
 					continue
 				}
-				nAdd++
-				fresh := false
-				for _, ss := range p.Stores([]*ssa.Function{f}) {
-					if ss.Owner != "tableEngine" || ss.Field != "rg" || !Dominates(ss.Instr, ci) {
-						continue
-					}
-					if v := ss.Val.Strip(); v.IsCall("syncsaga.NewReadyGroup") {
-						fresh = true
-						// … and not started in between
-						for _, c2 := range Calls(f) {
-							if calleeName(c2.Common()) == "syncsaga.ReadyGroup.Start" && Dominates(ss.Instr, c2) && Reaches(c2, ci) {
-								fresh = false
-							}
+				// an Add made by a small helper of the owner is judged where the helper is called
+				callers := p.CG().AllCallSitesOf(f)
+				lifted := false
+				if f.Signature.Recv() != nil && len(callers) > 0 {
+					hasStore := false
+					for _, ss := range p.Stores([]*ssa.Function{f}) {
+						if ss.Owner == owner && ss.Field == "rg" {
+							hasStore = true
 						}
 					}
+					if !hasStore {
+						for _, site := range callers {
+							sites = append(sites, addSite{site.Parent(), site})
+						}
+						lifted = true
+					}
 				}
-				c.Check(fresh, rule, "ready-group:add-only-to-a-fresh-group:"+FuncName(f), p.InstrPos(ci), "participants are added to a group created in this function and not yet started", FuncName(f)+" adds participants to the engine's ready group while that group may still be validating its last signal on its own goroutine ("+hazard+"): the write lock queues between the two read locks and neither side moves again — with the engine mutex held, so every later membership operation blocks as well")
+				if !lifted {
+					sites = append(sites, addSite{f, ci})
+				}
 			}
 		}
-		c.Min(rule, "Add calls on the engine's membership ready group", nAdd, 1)
+		seenSite := map[string]bool{}
+		for _, st := range sites {
+			f, ci := st.fn, st.in
+			key := FuncName(f)
+			if seenSite[key] {
+				continue
+			}
+			seenSite[key] = true
+			nAdd++
+			fresh := false
+			for _, ss := range p.Stores([]*ssa.Function{f}) {
+				if ss.Owner != owner || ss.Field != "rg" {
+					continue
+				}
+				if v := ss.Val.Strip(); v.IsCall("syncsaga.NewReadyGroup") && (Dominates(ss.Instr, ci) || rawLocal(ss.Instr.(*ssa.Store).Addr)) {
+					fresh = true
+				}
+			}
+			c.Check(fresh, rule, "ready-group:add-only-to-a-fresh-group:"+FuncName(f), p.InstrPos(ci), "participants are added to a group created in this function", FuncName(f)+" adds participants to "+what+" although that group was started earlier and may still be validating a pending signal on its own goroutine ("+hazard+"): the write lock queues between the two read locks and neither side moves again")
+		}
+		c.Min(rule, "functions adding to "+what, nAdd, 1)
+	}
+	if owner != "tableEngine" {
+		return
 	}
 	// … and the engine's membership operations are both sides of it
 	sides := map[string]bool{}
